@@ -51,6 +51,24 @@ var defaultMerge = []string{
 	"(*" + rp + "/jparse.lexer).acceptRunes2$1",
 }
 
+// genDir is this process's directory for generated harness files (one per process, so that several
+// checks can run at the same time); directories left by processes that no longer exist are removed.
+func genDir(key string) string {
+	base := filepath.Join(verifDir, "out", "gen")
+	if ents, err := os.ReadDir(base); err == nil {
+		for _, e := range ents {
+			i := strings.LastIndexByte(e.Name(), '-')
+			if i < 0 {
+				continue
+			}
+			if _, err := os.Stat("/proc/" + e.Name()[i+1:]); err != nil {
+				os.RemoveAll(filepath.Join(base, e.Name()))
+			}
+		}
+	}
+	return filepath.Join(base, fmt.Sprintf("%s-%d", key, os.Getpid()))
+}
+
 var harnessFuncRe = regexp.MustCompile(`(?m)^func (VerifH_[A-Za-z0-9_]+)\(\)`)
 
 // genOverlay writes the generated harness files for a package key under out/gen/<key>/ and returns
@@ -60,7 +78,7 @@ func genOverlay(key string) (map[string]string, []string, error) {
 	if !ok {
 		return nil, nil, fmt.Errorf("unknown package key %s", key)
 	}
-	gen := filepath.Join(verifDir, "out", "gen", key)
+	gen := genDir(key)
 	os.RemoveAll(gen)
 	if err := os.MkdirAll(gen, 0o755); err != nil {
 		return nil, nil, err
